@@ -17,7 +17,14 @@ int __osmt_thrown;
    dynamic objects of symbolic size make the formula explode); the request is checked against the block, and the in-bounds
    obligations of the real heap block are discharged by the instrumented job at the smaller bound */
 static t_char osmt_blk[4 * OSMT_N + 16]; static t_char osmt_blk1[1]; static int osmt_blk_used;
+#ifdef OSMT_STATIC_MALLOC_END
+/* the requested block is the LAST n bytes of the static array: a write past the requested size leaves the array and fails cbmc's own bounds obligation,
+   without a dynamic object of symbolic size */
+void *malloc(__CPROVER_size_t n) { if (n == 1) return osmt_blk1; __CPROVER_assert(!osmt_blk_used, "one conversion buffer per call"); __CPROVER_assert(n >= 1 && n <= sizeof(osmt_blk), "conversion buffer request within the bound's maximum"); osmt_blk_used = 1;
+  return osmt_blk + (sizeof(osmt_blk) - (n <= sizeof(osmt_blk) ? n : sizeof(osmt_blk))); }
+#else
 void *malloc(__CPROVER_size_t n) { if (n == 1) return osmt_blk1; __CPROVER_assert(!osmt_blk_used, "one conversion buffer per call"); __CPROVER_assert(n <= sizeof(osmt_blk), "conversion buffer request within the bound's maximum"); osmt_blk_used = 1; return osmt_blk; }
+#endif
 void free(void *p) { }
 #else
 void *malloc(__CPROVER_size_t); void free(void *);
@@ -34,7 +41,7 @@ void normalize(t_char **rat, t_char *flo, t_bool is_neg) {
   *rat = (t_char *)malloc(1);
 }
 /* ---- spec: parse [D+] [sep D+] ; returns 0 if the shape does not match ------------------------------------------- */
-typedef unsigned long long u64;
+typedef unsigned __int128 u64;   /* 128 bits: 10^(2N+8) for N <= 12 must not wrap */
 struct lit { t_bool ok; u64 a; u64 b; int blen; char sep; int alen; };
 static int is_dig(char c) { return c >= '0' && c <= '9'; }
 static struct lit spec_parse(const char *s, int maxlen) {
